@@ -431,6 +431,10 @@ func syncOnce(o Op, sched Op) map[string]interface{} {
 		return map[string]interface{}{"err": "snapshot: " + err.Error()}
 	}
 	xo := parseXferOpts(Op(o["opt"].(map[string]interface{})))
+	if rs := Op(o["opt"].(map[string]interface{})).arr("readsizes"); mfs != nil && len(rs) > 0 {
+		// the synthetic source hands out file bytes in short reads (legal for an io.Reader)
+		mfs.readSizes = intList(rs)
+	}
 	if sched != nil {
 		xo.cfg = streamCfg{Cap: sched.num("cap"), DelayUS: sched.num("delay"), Window: sched.num("window"), Seed: int64(sched.num("seed"))}
 		if p := sched.num("procs"); p > 0 {
